@@ -353,7 +353,11 @@ impl Pool {
          *
          * o The client's current address as recorded in the client's current
          *   binding, ELSE */
-        if let Some(lease) = self
+        /* The client may also hold leases outside the pool it is being served from now (it moved, or
+         * the configuration changed): walk its bindings in order until one is usable here.
+         */
+        let mut skipped = 0_u32;
+        while let Some(lease) = self
             .conn
             .query_row(
                 "SELECT
@@ -367,13 +371,14 @@ impl Pool {
              ORDER BY
               address=?3 DESC,
               expiry DESC
-             LIMIT 1",
+             LIMIT 1 OFFSET ?4",
                 rusqlite::params![
                     clientid,
                     ts as u32,
                     requested
                         .map(|ip| ip.to_string())
-                        .unwrap_or_else(|| "".into())
+                        .unwrap_or_else(|| "".into()),
+                    skipped
                 ],
                 |row| {
                     Ok(Some((
@@ -384,9 +389,14 @@ impl Pool {
                 },
             )
             .or_else(map_no_row_to_none)?
-            && let Ok(ip) = lease.0.parse::<std::net::Ipv4Addr>()
-            && addresses.contains(&ip)
         {
+            skipped += 1;
+            let Ok(ip) = lease.0.parse::<std::net::Ipv4Addr>() else {
+                continue;
+            };
+            if !addresses.contains(&ip) {
+                continue;
+            }
             // We want leases to double in size.  But normally you renew your
             // lease at ½ the duration.  We don't want to always just double
             // the lease, because you can accidentally end up with a ridiculously
@@ -404,7 +414,8 @@ impl Pool {
          * expired or released) binding, if that address is in the server's
          * pool of available addresses and not already allocated, ELSE */
 
-        if let Some(lease) = self
+        let mut skipped = 0_u32;
+        while let Some(lease) = self
             .conn
             .query_row(
                 "SELECT
@@ -418,13 +429,14 @@ impl Pool {
              ORDER BY
                address=?2 DESC,
                expire_time DESC
-             LIMIT 1
+             LIMIT 1 OFFSET ?3
              ",
                 rusqlite::params![
                     clientid,
                     requested
                         .map(|ip| ip.to_string())
-                        .unwrap_or_else(|| "".into())
+                        .unwrap_or_else(|| "".into()),
+                    skipped
                 ],
                 |row| {
                     Ok(Some((
@@ -435,9 +447,14 @@ impl Pool {
                 },
             )
             .or_else(map_no_row_to_none)?
-            && let Ok(ip) = lease.0.parse::<std::net::Ipv4Addr>()
-            && addresses.contains(&ip)
         {
+            skipped += 1;
+            let Ok(ip) = lease.0.parse::<std::net::Ipv4Addr>() else {
+                continue;
+            };
+            if !addresses.contains(&ip) {
+                continue;
+            }
             return Ok(Lease {
                 ip,
                 /* If a device is constantly asking for the same lease, we should double
